@@ -325,6 +325,20 @@ theorem server_renames_18_19 (sc sc' : Dict) (h : server18 sc = some sc') :
     rw [dget_dset_ne _ _ _ _ (by decide +kernel)]; exact dget_dpop_same _ _
   · rw [sniFix_frame _ _ _ h (by decide +kernel)]; exact a
 
+/-- **sni_true_without_destination.** `sni = True` ("use the server address") on a connection whose address is unset or
+    empty becomes "no server name" — the step does not fail (repaired by the fix recorded in known/C38.json). -/
+theorem sni_true_without_destination (sc : Dict) (a : Value) (h1 : dget sc (s "sni") = some (.bool true))
+    (h2 : dget sc (s "address") = some a) (h3 : truthy a = false) :
+    sniFix sc = some (dset sc (s "sni") .null) := by
+  unfold sniFix
+  simp [h1, h2, h3]
+
+/-- **sni_true_with_destination.** … and with an address pair it becomes that pair's host. -/
+theorem sni_true_with_destination (sc : Dict) (h : Value) (rest : List Value) (h1 : dget sc (s "sni") = some (.bool true))
+    (h2 : dget sc (s "address") = some (.list (h :: rest))) : sniFix sc = some (dset sc (s "sni") h) := by
+  unfold sniFix
+  simp [h1, h2, truthy, firstOf]
+
 /-- **host_decode_valid_utf8 / host_decode_ascii.** A host name recorded as valid UTF-8 bytes (in particular ASCII)
     is the same text after the decode; an undecodable byte becomes the four characters `\xNN` (`bsrCp_escape`). -/
 theorem host_decode_valid_utf8 (b : Bytes) (h : ∀ cp ∈ MitmVerif.C35.native b, ¬ (0xDC80 ≤ cp ∧ cp ≤ 0xDCFF)) :
@@ -766,6 +780,14 @@ example :
       = some (enc (.str (s "example.com"))) ∧
     (((conv_18_19 d).bind (fun d' => (dget d' (s "client_conn")).bind asDict)).bind (fun cc' => dget cc' (s "peername"))).map enc
       = some (enc (.list [.str [0x61, 0x5c, 0x78, 0x66, 0x66], .int 80])) := by decide +kernel
+
+-- non-vacuity: a format-18 record of a flow without a destination (address None, sni True) converts; sni becomes None
+example :
+    let cc : Value := .dict [(.str (s "address"), .null), (.str (s "tls_extensions"), .null), (.str (s "tls_established"), .bool false)]
+    let sc : Value := .dict [(.str (s "address"), .null), (.str (s "sni"), .bool true), (.str (s "tls_established"), .bool false)]
+    let d : Dict := [(.str (s "version"), .int 18), (.str (s "client_conn"), cc), (.str (s "server_conn"), sc)]
+    (((conv_18_19 d).bind (fun d' => (dget d' (s "server_conn")).bind asDict)).bind (fun sc' => dget sc' (s "sni"))).map enc
+      = some (enc .null) := by decide +kernel
 
 end Converters
 
